@@ -94,8 +94,8 @@ Proof.
   rewrite IH. destruct (w e) as [x|]; cbn [r_errors app]; [rewrite app_assoc|]; reflexivity.
 Qed.
 
-Definition nuv_entry_errors (d : document) (st : vars_state) (entry : option name * list name) : list verror :=
-  match vars_walk (vars_fuel d) st (fun v => mem_name v (snd entry)) (ScOp (fst entry)) [] [] with
+Definition nuv_entry_errors (d : document) (st : vars_state) (entry : (nat * option name) * list name) : list verror :=
+  match vars_walk (vars_fuel d) st (fun v => mem_name v (snd entry)) (ScOp (fst (fst entry)) (snd (fst entry))) [] [] with
   | Some (used, _) => flat_map (fun v => if mem_name v used then [] else [err R_NoUnusedVariables []]) (snd entry)
   | None => []
   end.
@@ -105,16 +105,16 @@ Lemma nuv_finish_errors d st :
 Proof.
   unfold nuv_finish.
   rewrite (fold_left_ext_fn _
-    (fun (res : rule_result) (e : option name * list name) =>
-       match vars_walk (vars_fuel d) st (fun v => mem_name v (snd e)) (ScOp (fst e)) [] [] with
+    (fun (res : rule_result) (e : (nat * option name) * list name) =>
+       match vars_walk (vars_fuel d) st (fun v => mem_name v (snd e)) (ScOp (fst (fst e)) (snd (fst e))) [] [] with
        | Some x => mkRes (r_errors res ++
                           flat_map (fun v => if mem_name v (fst x) then [] else [err R_NoUnusedVariables []]) (snd e))
                          (r_oof res)
        | None => mkRes (r_errors res) true
        end)).
   - rewrite (fold_res_errors
-      (fun e : option name * list name =>
-         vars_walk (vars_fuel d) st (fun v => mem_name v (snd e)) (ScOp (fst e)) [] [])
+      (fun e : (nat * option name) * list name =>
+         vars_walk (vars_fuel d) st (fun v => mem_name v (snd e)) (ScOp (fst (fst e)) (snd (fst e))) [] [])
       (fun e x => flat_map (fun v => if mem_name v (fst x) then [] else [err R_NoUnusedVariables []]) (snd e))).
     cbn [r_errors app]. apply flat_map_ext. intro e. unfold nuv_entry_errors.
     destruct (vars_walk _ _ _ _ _ _) as [[u vis]|]; reflexivity.
@@ -129,17 +129,17 @@ Proof. intros Hu Hs. unfold nuv_entry_errors. rewrite (vars_walk_ext _ st st' _ 
 (* NoUnusedVariables: iteration over defined_variables (outer map) *)
 Lemma nuv_finish_perm : forall d st defs', Permutation (vs_defined st) defs' ->
   Permutation (r_errors (nuv_finish d st))
-              (r_errors (nuv_finish d (mkVars (vs_scope st) defs' (vs_used st) (vs_spreads st)))).
+              (r_errors (nuv_finish d (mkVars (vs_scope st) defs' (vs_seen st) (vs_used st) (vs_spreads st)))).
 Proof.
   intros d st defs' H. rewrite !nuv_finish_errors. cbn [vs_defined].
-  rewrite (flat_map_ext (nuv_entry_errors d (mkVars (vs_scope st) defs' (vs_used st) (vs_spreads st)))
+  rewrite (flat_map_ext (nuv_entry_errors d (mkVars (vs_scope st) defs' (vs_seen st) (vs_used st) (vs_spreads st)))
                         (nuv_entry_errors d st)).
   - apply flat_map_perm. exact H.
   - intro e. symmetry. apply nuv_entry_errors_ext; reflexivity.
 Qed.
 
-Definition nudv_entry_errors (d : document) (st : vars_state) (entry : option name * list name) : list verror :=
-  match vars_walk (vars_fuel d) st (fun v => negb (mem_name v (snd entry))) (ScOp (fst entry)) [] [] with
+Definition nudv_entry_errors (d : document) (st : vars_state) (entry : (nat * option name) * list name) : list verror :=
+  match vars_walk (vars_fuel d) st (fun v => negb (mem_name v (snd entry))) (ScOp (fst (fst entry)) (snd (fst entry))) [] [] with
   | Some (undefined, _) => map (fun _ => err R_NoUndefinedVariables []) undefined
   | None => []
   end.
@@ -149,14 +149,14 @@ Lemma nudv_finish_errors d st :
 Proof.
   unfold nudv_finish.
   rewrite (fold_left_ext_fn _
-    (fun (res : rule_result) (e : option name * list name) =>
-       match vars_walk (vars_fuel d) st (fun v => negb (mem_name v (snd e))) (ScOp (fst e)) [] [] with
+    (fun (res : rule_result) (e : (nat * option name) * list name) =>
+       match vars_walk (vars_fuel d) st (fun v => negb (mem_name v (snd e))) (ScOp (fst (fst e)) (snd (fst e))) [] [] with
        | Some x => mkRes (r_errors res ++ map (fun _ => err R_NoUndefinedVariables []) (fst x)) (r_oof res)
        | None => mkRes (r_errors res) true
        end)).
   - rewrite (fold_res_errors
-      (fun e : option name * list name =>
-         vars_walk (vars_fuel d) st (fun v => negb (mem_name v (snd e))) (ScOp (fst e)) [] [])
+      (fun e : (nat * option name) * list name =>
+         vars_walk (vars_fuel d) st (fun v => negb (mem_name v (snd e))) (ScOp (fst (fst e)) (snd (fst e))) [] [])
       (fun e x => map (fun _ => err R_NoUndefinedVariables []) (fst x))).
     cbn [r_errors app]. apply flat_map_ext. intro e. unfold nudv_entry_errors.
     destruct (vars_walk _ _ _ _ _ _) as [[u vis]|]; reflexivity.
@@ -171,10 +171,10 @@ Proof. intros Hu Hs. unfold nudv_entry_errors. rewrite (vars_walk_ext _ st st' _
 (* NoUndefinedVariables: iteration over defined_variables (outer map) *)
 Lemma nudv_finish_perm : forall d st defs', Permutation (vs_defined st) defs' ->
   Permutation (r_errors (nudv_finish d st))
-              (r_errors (nudv_finish d (mkVars (vs_scope st) defs' (vs_used st) (vs_spreads st)))).
+              (r_errors (nudv_finish d (mkVars (vs_scope st) defs' (vs_seen st) (vs_used st) (vs_spreads st)))).
 Proof.
   intros d st defs' H. rewrite !nudv_finish_errors. cbn [vs_defined].
-  rewrite (flat_map_ext (nudv_entry_errors d (mkVars (vs_scope st) defs' (vs_used st) (vs_spreads st)))
+  rewrite (flat_map_ext (nudv_entry_errors d (mkVars (vs_scope st) defs' (vs_seen st) (vs_used st) (vs_spreads st)))
                         (nudv_entry_errors d st)).
   - apply flat_map_perm. exact H.
   - intro e. symmetry. apply nudv_entry_errors_ext; reflexivity.
